@@ -895,6 +895,7 @@ func (e *Engine) havocReachable(st *State, args []Val) {
 		st.havocKey(k)
 		if st.dry != nil {
 			st.dry.keys[k] = true
+			st.dry.whole[k] = true
 		}
 	}
 }
@@ -1329,6 +1330,7 @@ func (e *Engine) doSend(st *State, in *ssa.Send, ch, x Val) {
 		return
 	}
 	st.blockingOp(in, "send:"+subj)
+	st.sendHooks(in, subj, x)
 	var a []Term
 	a = append(a, ch.L[0])
 	a = append(a, x.L...)
@@ -1363,6 +1365,34 @@ func (e *Engine) doRecv(st *State, in *ssa.UnOp, ch Val) {
 	} else {
 		st.set(in, v)
 		st.recvHooks(in, subj, v, TTrue)
+	}
+}
+
+// sendHooks: `at send <chan>: assert P` - a condition on every value this function sends on the channel
+// (v names the value sent), evaluated in the state in which it is sent.
+func (st *State) sendHooks(in ssa.Instruction, subj string, v Val) {
+	c := st.fr.contract
+	if c == nil || in.Parent() != st.fr.fn {
+		return
+	}
+	for i, h := range c.Hooks["send:"+subj] {
+		if h.Kind != "assert" {
+			continue
+		}
+		if st.ctx.hooksFired == nil {
+			st.ctx.hooksFired = map[string]bool{}
+		}
+		st.ctx.hooksFired["send:"+subj] = true
+		env := st.specEnv("hook")
+		env.scope = in.Block()
+		env.vars["v"] = v
+		name := st.ctx.oblName(in, "send") + fmt.Sprintf("/assert%d", i+1)
+		tm, err := st.evalClause(env, h.Cl)
+		if err != nil {
+			st.bindFail(name, err)
+			continue
+		}
+		st.obligeNamed(name, "assert", st.posOf(in), tm, "when sending on "+subj+": "+h.Cl.Text)
 	}
 }
 
@@ -1485,6 +1515,7 @@ func (e *Engine) doSelect(st *State, in *ssa.Select, k func(*State)) {
 			} else if ss.Dir == types.SendOnly {
 				s.obligeNamed(s.ctx.oblName(in, "select")+fmt.Sprintf("/send%d", idx), "send", s.posOf(in), Not(s.chanClosed(ch)), "send on closed channel "+subj)
 				x := s.get(ss.Send)
+				s.sendHooks(in, subj, x)
 				a := append([]Term{ch.L[0]}, x.L...)
 				s.event("send:"+subj, in.Pos(), a...)
 			} else {
